@@ -2285,6 +2285,20 @@ pub fn gen_c14(seed: u64, i: u64, _thorough: bool) -> Value {
         }
         scripts.push(sc);
     }
+    // now and then one replica's pending changes exceed the one-megabyte batch limit, so that
+    // one sync sends several versions (each of which must be a document of its own)
+    if rng.chance(1, 60) {
+        let n = rng.usize_below(nodes);
+        let t = rng.below(g.tasks as u64) as u8;
+        let mut ops = vec![Intent::Create { t }];
+        for _ in 0..3 {
+            ops.push(Intent::Set { t, p: rng.below(g.props as u64) as u8, ts: gen_ts(&mut rng, &mut g), big: true });
+        }
+        ops.push(Intent::Set { t, p: rng.below(g.props as u64) as u8, ts: gen_ts(&mut rng, &mut g), big: false });
+        let at = rng.usize_below(scripts[n].len() + 1);
+        scripts[n].insert(at, Action::Commit { ops });
+        scripts[n].insert(at + 1, Action::Sync { avoid: true });
+    }
     let sc = Scenario {
         check: "C14".into(),
         seed: s,
